@@ -14,7 +14,7 @@ const double numeric_rel_tol = 0;
 const bool exact_lattice_plans = false;
 const double conditioning_gate = 1e-2;
 
-enum { V_IMC = 1, V_MAP = 2, V_TWO = 4, V_GRID_SIMPLE = 8, V_BONDED = 16, V_FORCE = 32, V_MAP2 = 64 };
+enum { V_IMC = 1, V_MAP = 2, V_TWO = 4, V_GRID_SIMPLE = 8, V_BONDED = 16, V_FORCE = 32, V_MAP2 = 64, V_3BODY = 128 };
 
 void tool_generate(Plan &p, sim::Rng &r, const std::string &) {
   p.variant = 0;
@@ -25,13 +25,14 @@ void tool_generate(Plan &p, sim::Rng &r, const std::string &) {
   if (r.chance(0.4)) p.variant |= V_BONDED;
   if (r.chance(0.25)) p.variant |= V_FORCE;
   if (r.chance(0.5)) p.variant |= V_MAP2;
+  if (r.chance(0.25)) p.variant |= V_3BODY;
   p.block = r.chance(0.35) ? 1 + (int)r.below(3) : 0;
 }
 
 js::Value tool_variant_json(const Plan &p) {
   js::Value v = js::Value::obj();
   v.set("do_imc", (p.variant & V_IMC) != 0).set("mapping", (p.variant & V_MAP) != 0).set("two_types", (p.variant & V_TWO) != 0)
-   .set("nbsearch_simple", (p.variant & V_GRID_SIMPLE) != 0).set("bonded", (p.variant & V_BONDED) != 0).set("mean_force", (p.variant & V_FORCE) != 0).set("two_cg_beads_with_cg_bond", (p.variant & V_MAP2) != 0).set("block_length", p.block);
+   .set("nbsearch_simple", (p.variant & V_GRID_SIMPLE) != 0).set("bonded", (p.variant & V_BONDED) != 0).set("mean_force", (p.variant & V_FORCE) != 0).set("two_cg_beads_with_cg_bond", (p.variant & V_MAP2) != 0).set("threebody_interaction", (p.variant & V_3BODY) != 0).set("block_length", p.block);
   return v;
 }
 
@@ -83,6 +84,16 @@ void tool_build(const Plan &p, Case &c) {
   // mean force needs forces in the trajectory: LAMMPS dump and DL_POLY HISTORY
   opt << interaction("A-A", "A", "A", max, step, imc, "g1", (p.variant & V_FORCE) && (p.fmt == 0 || p.fmt == 4));
   if (two) opt << interaction("A-B", "A", "B", 0.5, 0.1, imc, (p.case_seed & 64) ? "g1" : "g2");
+  if (p.variant & V_3BODY) {  // angular three-body distributions (csg_stat's "preliminary" 3-body path, its own neighbour search per worker)
+    auto three = [&](const char *name, const char *t1, double cut) {
+      opt << " <non-bonded>\n  <name>" << name << "</name>\n  <type1>" << t1 << "</type1>\n  <type2>A</type2>\n  <type3>A</type3>\n  <threebody>1</threebody>\n"
+          << "  <min>0.0</min>\n  <max>3.1</max>\n  <step>0.1</step>\n  <cut>" << cut << "</cut>\n";
+      if (imc) opt << "  <inverse><imc><group>none</group></imc></inverse>\n";
+      opt << " </non-bonded>\n";
+    };
+    three("A-A-A", "A", 0.45);
+    if (two) three("B-A-A", "B", 0.4);
+  }
   if (bonded && !map) {
     opt << " <bonded>\n  <name>bond1</name>\n  <min>0.0</min>\n  <max>0.3</max>\n  <step>0.01</step>\n";
     if (imc) opt << "  <inverse><imc><group>none</group></imc></inverse>\n";
